@@ -410,4 +410,89 @@ example : ASys.init.runOk
      .reqSetBps 0 [demoBp], .wake, .coord, .coord] = false := by
   decide
 
+/-! ## Third surface: expressions the debugger evaluates on the live program (watch expressions,
+breakpoint conditions, logpoint fragments, assignment targets) — "the sequence of program states is
+the same as in an undebugged run unless the user explicitly writes a value"
+
+`hasSideEffects` mirrors `expression_has_side_effects` (harness/parse.rs), the guard of
+`parse_debug_expression` / `parse_debug_lvalue`.  Proved here: what the guard accepts contains no call
+outside the allow-list, anywhere.  That an allow-listed call evaluates without changing program
+state is not proved; the check tests it on the real runtime (state at every stop and at the end with
+the accepted expression registered as watch, condition and logpoint = undebugged run). -/
+
+/-- **Accepted ⇒ no call to a non-allow-listed or unresolvable callee anywhere in the expression**
+(in any argument position, at any nesting depth, behind any operator), for every expression and
+every allow-list. -/
+theorem c17_expr_accepted_only_allowed_calls (allowed : String → Bool) (e : DExpr)
+    (hacc : hasSideEffects allowed e = false) (t : Option String) (hc : HasCall e t) :
+    ∃ n, t = some n ∧ allowed n = true := by
+  have hm := mem_calls_of_hasCall e t hc
+  simp only [hasSideEffects, List.any_eq_false] at hacc
+  have := hacc t hm
+  cases t with
+  | none => simp [offending] at this
+  | some n => exact ⟨n, rfl, by simpa [offending] using this⟩
+
+/-- **Rejected ⇒ there is a reason**: the expression really contains a call whose callee is
+unresolvable or not on the allow-list (the guard rejects nothing else, e.g. no call-free expression). -/
+theorem c17_expr_rejected_has_offending_call (allowed : String → Bool) (e : DExpr)
+    (hrej : hasSideEffects allowed e = true) :
+    ∃ t, HasCall e t ∧ offending allowed t = true := by
+  simp only [hasSideEffects, List.any_eq_true] at hrej
+  obtain ⟨t, hm, ho⟩ := hrej
+  exact ⟨t, hasCall_of_mem_calls e t hm, ho⟩
+
+/-- **Counterexample at the guard (finding C17-split-outputs-allowlisted).**  Every call of a
+`SPLIT_*` function over call-free arguments is accepted — `SPLIT_DATE(d0, total, aux, aux)` is — although
+these functions write their `YEAR`/`MONTH`/… output arguments: registered as a watch expression it
+overwrites program variables at every stop (replayed on the real runtime by the check). -/
+theorem c17_expr_counterexample_split_accepted (name : String) (args : List DExpr)
+    (hs : Gen.splitNames.contains name.toUpper = true) (hargs : callsList args = []) :
+    hasSideEffects isAllowedWatchCall (.call (some name) args) = false := by
+  have hs' : name.toUpper ∈ Gen.splitNames := by simpa using hs
+  simp [hasSideEffects, DExpr.calls, hargs, offending, isAllowedWatchCall]
+  intro _ _; exact hs'
+
+example : Gen.splitNames.contains "SPLIT_DATE" = true ∧ callsList [.leaf, .leaf, .leaf, .leaf] = [] := by
+  simp [callsList, DExpr.calls, Gen.splitNames]
+
+/-- **Partial theorem (real allow-list, guard `noSplitCall`).**  An accepted expression without
+`SPLIT_*` calls contains only calls of the pure standard functions of `is_pure_stdlib_name` and of
+type conversions — functions without output or in-out parameters. -/
+theorem c17_expr_accepted_partial (e : DExpr) (hacc : hasSideEffects isAllowedWatchCall e = false)
+    (hns : noSplitCall e = true) (t : Option String) (hc : HasCall e t) :
+    ∃ n, t = some n ∧ (Gen.pureNames.contains n.toUpper = true ∨ isConversionName n.toUpper = true) := by
+  have hm := mem_calls_of_hasCall e t hc
+  simp only [hasSideEffects, List.any_eq_false] at hacc
+  have h1 := hacc t hm
+  simp only [noSplitCall, List.all_eq_true] at hns
+  have h2 := hns t hm
+  cases t with
+  | none => simp [offending] at h1
+  | some n =>
+    refine ⟨n, rfl, ?_⟩
+    have h1' : (Gen.pureNames.contains n.toUpper || isConversionName n.toUpper ||
+        Gen.splitNames.contains n.toUpper) = true := by
+      cases hb : (Gen.pureNames.contains n.toUpper || isConversionName n.toUpper ||
+        Gen.splitNames.contains n.toUpper) <;> simp_all [offending, isAllowedWatchCall]
+    simp only [Bool.or_eq_true] at h1'
+    rcases h1' with (h | h) | h
+    · exact Or.inl h
+    · exact Or.inr h
+    · simp only [h] at h2; cases h2
+
+/-- Non-vacuity (with the allow-list `ABS`, `MAX`, `INT_TO_DINT`; the real, generated allow-list is
+what the driver runs): `ABS(MAX(x, INT_TO_DINT(y)))` is accepted and contains three calls;
+`ABS(Bump(x))`, `MAX(x, Bump(y))` and `ABS(x) + Bump(y)` are rejected (the shapes a first-call-only
+check lets through); an unresolvable callee is rejected. -/
+example :
+    hasSideEffects demoAllowed
+      (.call (some "ABS") [.call (some "MAX") [.leaf, .call (some "INT_TO_DINT") [.leaf]]]) = false ∧
+    hasSideEffects demoAllowed (.call (some "ABS") [.call (some "Bump") [.leaf]]) = true ∧
+    hasSideEffects demoAllowed (.call (some "MAX") [.leaf, .call (some "Bump") [.leaf]]) = true ∧
+    hasSideEffects demoAllowed
+      (.node [.call (some "ABS") [.leaf], .call (some "Bump") [.leaf]]) = true ∧
+    hasSideEffects demoAllowed (.call (some "ABS") [.call none [.leaf]]) = true := by
+  simp [hasSideEffects, DExpr.calls, callsList, offending, demoAllowed]
+
 end TrustVerif.C17
